@@ -468,9 +468,24 @@ def random_trace(seed, tid, workdir, props):
             w = np.cross(u, _unit(rng)) * rng.uniform(0.0, 0.3)
             tpos[t] = 0.5 * (pos[a] + pos[b]) + w + u * 10.0 ** (-rng.uniform(3.4, 5.5))
     names = ['C%d' % (i + 1) for i in range(n)]
-    refmol = synth.make_molecule(os.path.join(workdir, 'rr'), 'RREF', names, bonds, np.round(pos, 3))
+    # reference and target split into the same number of residues (as a protein and its finer image are): the map tables
+    # are per molecule, whatever the residue structure
+    nres = int(rng.integers(2, 4)) if (min(n, nt) >= 3 and rng.random() < 0.3) else 1
+
+    def blocks(m, tag):
+        if nres == 1:
+            return None
+        cuts = sorted(int(x) for x in rng.choice(np.arange(1, m), nres - 1, replace=False))
+        out_, r_ = [], 0
+        for i in range(m):
+            if r_ < len(cuts) and i >= cuts[r_]:
+                r_ += 1
+            out_.append(('%s%d' % (tag, r_), r_ + 1))
+        return out_
+    res_ref, res_tgt = blocks(n, 'RR'), blocks(nt, 'RT')
+    refmol = synth.make_molecule(os.path.join(workdir, 'rr'), 'RREF', names, bonds, np.round(pos, 3), residues=res_ref)
     tgt = synth.make_molecule(os.path.join(workdir, 'rt'), 'RTGT', ['T%d' % (i + 1) for i in range(nt)], [],
-                              np.round(tpos, 3))
+                              np.round(tpos, 3), residues=res_tgt)
     refmol.atoms_positions = pos
     tgt.atoms_positions = tpos
     ev = []
@@ -521,7 +536,7 @@ def random_trace(seed, tid, workdir, props):
         # an independently loaded molecule of the same species whose topology file lists the bonds in another
         # order (and direction): the species is the same, so is the map
         shuffled = [(b_ if rng.random() < 0.5 else b_[::-1]) for b_ in (bonds[int(k_)] for k_ in rng.permutation(len(bonds)))]
-        refmol = synth.make_molecule(os.path.join(workdir, 'rr2'), 'RREF', names, shuffled, np.round(pos, 3))
+        refmol = synth.make_molecule(os.path.join(workdir, 'rr2'), 'RREF', names, shuffled, np.round(pos, 3), residues=res_ref)
     refmol.atoms_positions = pos
     if rng.random() < 0.5:
         tgt.atoms_positions = tpos @ _random_rotation(rng).T + rng.normal(size=3) * 3
